@@ -761,6 +761,37 @@ func resultNames(spec *FuncSpec, sig *types.Signature) []string {
 
 // ---------- calls ----------
 
+// atCallOrdinary evaluates the at-call clauses of the function under verification that name
+// the callee key. An asserted clause becomes an obligation and is then available as a
+// hypothesis (assert-then-assume: sound because the assertion is itself discharged).
+func (x *Exec) atCallOrdinary(fr *Frame, st *State, key string) {
+	if !(fr.root && fr.spec != nil) {
+		return
+	}
+	for _, ac := range fr.spec.AtCalls {
+		if ac.Callee == "funcvalue" || ac.Callee == "close" || ac.Callee == "send" {
+			continue
+		}
+		if strings.HasSuffix(key, ac.Callee) || strings.HasSuffix(key, "."+ac.Callee) {
+			if ac.Assert != nil {
+				t, err := x.evalBool(fr, st, ac.Assert.E)
+				if err != nil {
+					x.bindingFailure(fmt.Sprintf("at call %s: %v", ac.Callee, err))
+				} else {
+					x.obligeIn(st, "at-call "+ac.Callee, ac.Assert.Name(), t, "")
+					x.assumeIn(st, t)
+				}
+			}
+			if ac.Assume != nil {
+				if t, err := x.evalBool(fr, st, ac.Assume.E); err == nil {
+					x.assumeIn(st, t)
+					x.assume1("assumed at call " + ac.Callee + " in " + shortFn(fr.fn) + ": " + ac.Assume.Src)
+				}
+			}
+		}
+	}
+}
+
 func (x *Exec) execCall(fr *Frame, st *State, instr ssa.Instruction, c *ssa.CallCommon, res ssa.Value) {
 	x.curPos = instr.Pos()
 	setRes := func(v Val) {
@@ -769,6 +800,7 @@ func (x *Exec) execCall(fr *Frame, st *State, instr ssa.Instruction, c *ssa.Call
 		}
 	}
 	if b, ok := c.Value.(*ssa.Builtin); ok {
+		x.atCallOrdinary(fr, st, "builtin."+b.Name())
 		setRes(x.execBuiltin(fr, st, instr, b, c))
 		return
 	}
@@ -776,30 +808,7 @@ func (x *Exec) execCall(fr *Frame, st *State, instr ssa.Instruction, c *ssa.Call
 	if callee == nil && spec == nil && !c.IsInvoke() && strings.HasPrefix(key, "func-value") {
 		x.atCallClauses(fr, st, "funcvalue")
 	}
-	// at-call clauses of the function under verification
-	if fr.root && fr.spec != nil {
-		for _, ac := range fr.spec.AtCalls {
-			if ac.Callee == "funcvalue" || ac.Callee == "close" || ac.Callee == "send" {
-				continue
-			}
-			if strings.HasSuffix(key, ac.Callee) || strings.HasSuffix(key, "."+ac.Callee) {
-				if ac.Assert != nil {
-					t, err := x.evalBool(fr, st, ac.Assert.E)
-					if err != nil {
-						x.bindingFailure(fmt.Sprintf("at call %s: %v", ac.Callee, err))
-					} else {
-						x.obligeIn(st, "at-call "+ac.Callee, ac.Assert.Name(), t, "")
-					}
-				}
-				if ac.Assume != nil {
-					if t, err := x.evalBool(fr, st, ac.Assume.E); err == nil {
-						x.assumeIn(st, t)
-						x.assume1("assumed at call " + ac.Callee + " in " + shortFn(fr.fn) + ": " + ac.Assume.Src)
-					}
-				}
-			}
-		}
-	}
+	x.atCallOrdinary(fr, st, key)
 	if strings.HasSuffix(key, "/search.NewExplanation") && fr.root {
 		x.checkExplanationMessage(fr, st, instr, c)
 	}
@@ -1309,17 +1318,7 @@ func (x *Exec) checkEnsures(fr *Frame, st *State, out Val) {
 		}
 	}
 	ctx := &EvalCtx{x: x, names: names, st: st, old: fr.entry, oldNames: fr.params}
-	for _, e := range spec.Ensures {
-		if !x.clauseActive(e) {
-			continue
-		}
-		v, err := ctx.eval(e.E, sortBool)
-		if err != nil || len(v.L) != 1 || v.S[0].K != SBool {
-			x.bindingFailure(fmt.Sprintf("ensures %q: %v", e.Src, err))
-			continue
-		}
-		x.obligeIn(st, "ensures", e.Name(), v.One(), "")
-	}
+	// exit clauses first: each is an obligation and then a lemma for what follows
 	for _, e := range spec.Exits {
 		if !x.clauseActive(e) {
 			continue
@@ -1348,6 +1347,18 @@ func (x *Exec) checkEnsures(fr *Frame, st *State, out Val) {
 		}
 		x.exitHits[e.Name()]++
 		x.obligeIn(st, "exit", e.Name(), v.One(), "")
+		x.assumeIn(st, v.One()) // assert-then-assume: later exit clauses and the ensures may use it
+	}
+	for _, e := range spec.Ensures {
+		if !x.clauseActive(e) {
+			continue
+		}
+		v, err := ctx.eval(e.E, sortBool)
+		if err != nil || len(v.L) != 1 || v.S[0].K != SBool {
+			x.bindingFailure(fmt.Sprintf("ensures %q: %v", e.Src, err))
+			continue
+		}
+		x.obligeIn(st, "ensures", e.Name(), v.One(), "")
 	}
 	if spec.Lockset || x.lockset {
 		x.checkLocksBalanced(fr, st)
@@ -1630,6 +1641,9 @@ func (x *Exec) checkImmutable(fr *Frame, st *State, a Addr, in ssa.Instruction) 
 		if f == fname {
 			x.birth()
 			goal := "(> (birth " + a.Ref + ") " + x.entryNow + ")"
+			if x.allocHere[a.Ref] {
+				goal = "true" // the target is syntactically an allocation of this activation
+			}
 			root := fr
 			for root.caller != nil {
 				root = root.caller
